@@ -10,6 +10,7 @@ import random
 from .. import core, harness, vloop
 
 PROP = 'C15'
+TECHNIQUE = ("runtime monitoring: invariant hook after Circuit.finalize() and after the start - connection data of the real circuit compared with the generator's wiring spec; invalid references must be refused")
 LEVEL = 'exploration'
 RULE = ("case = random connection specification over up to 8 blocks (Inputs, Not/And/Or/Xor/"
         "Override/FuncBlock) mixing references by object, by name, '_not_NAME' (to S- and C-"
